@@ -279,6 +279,9 @@ func (s *memoryStore) UpdateNodePeers(nodeID store.NodeID, peers []string, block
 	now := time.Now()
 	node.LastSeen = now
 	node.BlockNumber = blockNumber
+	// Save the check-in before refreshing peers, so that a node which lists
+	// itself is compared against this update (same as the badger driver).
+	s.nodes[nodeID] = node
 
 	for _, peer := range peers {
 		// Only update peers we already know about
